@@ -38,6 +38,7 @@ structure Tables where
   exeVarTypeOptional : Bool
   opFallbackAnyName : Bool
   nullVarUsesDefault : Bool
+  argCountCheckOnly : Bool
   listNotCoerced : Bool
   symbolUnchecked : Bool
   fieldPosAfterLookahead : Bool
